@@ -546,8 +546,7 @@ Print Assumptions C15_mod_fmns_roundtrip_wf.
 (* "restores a solver that computes identical outputs", modules included: for every solver Network.FastNetworkSolver
    builds from a network with control nodes and EVERY sequence of operations, the restored solver returns at every
    operation the same result (errors of the module loop included) and the same ReadOutputs() as the original
-   (a) run from its own initial state and (b) flushed after any history of its own - (b) for the solvers for which
-   Flush is a reset (C13_mod_fast_flush_fresh: no module reads a bias slot that something writes) *)
+   (a) run from its own initial state and (b) flushed after any history of its own (C13_mod_fast_flush_fresh) *)
 Theorem C15_mod_fmns_outputs_equal :
   forall (F : Type) (NF : num F) (finite : F -> bool) (act : Z -> F -> res F) (mact : Z -> list F -> res (list F)),
     finite (fzero NF) = true ->
@@ -562,8 +561,7 @@ Theorem C15_mod_fmns_outputs_equal :
       (forall ops : list (op F),
          mfast_trace NF act mact (fmnet_of s') (mfast_init NF (fmnet_of s')) ops =
          mfast_trace NF act mact fx (mfast_init NF fx) ops) /\
-      (flush_ok F fx = true ->
-       forall h ops : list (op F),
+      (forall h ops : list (op F),
          mfast_trace NF act mact (fmnet_of s') (mfast_init NF (fmnet_of s')) ops =
          mfast_trace NF act mact fx (fst (fast_flush NF (fx_net fx) (mfast_run NF act mact fx (mfast_init NF fx) h))) ops).
 Proof.
